@@ -31,7 +31,12 @@
     modifier unit, id-string type code, BCD+ and 6-bit id strings;
     `bcd_sdr_codes_counterexample` (an SDR id string with a nibble Dh / Eh / Fh raises ValueError: the FRU table
     has 13 entries), `channel_number_counterexample` (FRU device locator and MC confirmation record report the
-    raw byte as channel number) — each for the variant that differs from `Variant.intended` in that flag only
+    raw byte as channel number), `logical_physical_counterexample` (FRU device locator: the whole key byte 8 under the
+    name of its bit-7 flag, access LUN and private bus id reported nowhere), `sensor_key_channel_counterexample`
+    (full / compact / event-only sensor record: the channel number [7:4] of key byte 7 is dropped; records with
+    different keys parse to equal results) — each for the variant that differs from `Variant.intended` in that flag only
+  * `fru_access_byte_all`, `sensor_key_all`   the sub-fields of key byte 8 of table 43-7 (all 64 combinations) and of
+    key byte 7 of tables 43-1, 43-2, 43-3 (all 16 channels x 4 LUNs) as the intended parser reports them
 -/
 import PyIpmi.Lemmas.SdrParse
 import PyIpmi.Gen.SdrExpr
@@ -42,14 +47,15 @@ open PyIpmi PyIpmi.SdrParse PyIpmi.Spec.Sdr
 
 /-- Table 43-1.  Every attribute the table defines, M, B (10-bit two's complement split over
 two bytes), accuracy (10 bits split 6+4), the exponents (4-bit two's complement), tolerance,
-units, masks, thresholds, hysteresis and the id string.  `capabilities` is outside the
+units, masks, thresholds, hysteresis and the id string; the record key with the channel number [7:4] of byte 7
+next to the owner LUN [1:0].  `capabilities` is outside the
 specification: it is whatever `_decode_capabilities` makes of byte 12. -/
 theorem parse_encode_full (r : FullSensor) (h : r.wf = true) :
     parseSdr Variant.intended r.encode =
       .ok ⟨.full, r.view, [("capabilities", .list (capabilitiesOf r.capabilities))]⟩ :=
   parse_full r h
 
-/-- Table 43-2. -/
+/-- Table 43-2.  (Key as in table 43-1: owner id, channel number [7:4] and owner LUN [1:0] of byte 7, number.) -/
 theorem parse_encode_compact (r : CompactSensor) (h : r.wf = true) :
     parseSdr Variant.intended r.encode = .ok ⟨.compact, r.view, []⟩ :=
   parse_compact r h
@@ -59,7 +65,8 @@ theorem parse_encode_eventOnly (r : EventOnly) (h : r.wf = true) :
     parseSdr Variant.intended r.encode = .ok ⟨.eventOnly, r.view, []⟩ :=
   parse_eventOnly r h
 
-/-- Table 43-7.  Byte 9: the channel number is bits [7:4]; [3:0] are reserved and ignored whatever they hold. -/
+/-- Table 43-7.  Byte 8 (key): logical/physical flag [7], access LUN [4:3], private bus id [2:0], each reported on
+its own.  Byte 9: the channel number is bits [7:4]; [3:0] are reserved and ignored whatever they hold. -/
 theorem parse_encode_fruLocator (r : FruLocator) (h : r.wf = true) :
     parseSdr Variant.intended r.encode = .ok ⟨.fruLocator, r.view, []⟩ :=
   parse_fruLocator r h
@@ -205,7 +212,8 @@ theorem gen_parseFull_eq
        nom :: nmax :: nmin :: smax :: smin :: unr :: ucr :: unc :: lnr :: lcr :: lnc :: ph :: nh ::
        r0 :: r1 :: oem :: rest) =
     withIdThen
-      [("owner_id", .nat oid), ("owner_lun", .nat (Gen.SdrExpr.key_owner_lun olun)), ("number", .nat num),
+      [("owner_id", .nat oid), ("channel_number", .nat (Gen.SdrExpr.key_channel_number olun)),
+       ("owner_lun", .nat (Gen.SdrExpr.key_owner_lun olun)), ("number", .nat num),
        ("entity_id", .nat eid), ("entity_instance", .nat einst),
        ("initialization", .list (flagsOf (Gen.SdrExpr.full_initialization_flags.map Prod.fst) ini)),
        ("sensor_type_code", .nat st), ("event_reading_type_code", .nat et),
@@ -243,7 +251,8 @@ theorem gen_parseCompact_eq
       (oid :: olun :: num :: eid :: einst :: ini :: cap :: st :: et :: am0 :: am1 :: dm0 :: dm1 ::
        rm0 :: rm1 :: u1 :: u2 :: u3 :: rs0 :: rs1 :: ph :: nh :: r0 :: r1 :: r2 :: oem :: rest) =
     withIdThen
-      [("owner_id", .nat oid), ("owner_lun", .nat (Gen.SdrExpr.key_owner_lun olun)), ("number", .nat num),
+      [("owner_id", .nat oid), ("channel_number", .nat (Gen.SdrExpr.key_channel_number olun)),
+       ("owner_lun", .nat (Gen.SdrExpr.key_owner_lun olun)), ("number", .nat num),
        ("entity_id", .nat eid), ("entity_instance", .nat einst),
        ("sensor_initialization", .nat ini), ("capabilities", .nat cap),
        ("sensor_type_code", .nat st), ("event_reading_type_code", .nat et),
@@ -257,7 +266,8 @@ theorem gen_parseCompact_eq
 theorem gen_parseEventOnly_eq (oid olun num eid einst st et rs0 rs1 r0 oem : Nat) (rest : List Nat) :
     parseEventOnly Variant.intended (oid :: olun :: num :: eid :: einst :: st :: et :: rs0 :: rs1 :: r0 :: oem :: rest) =
     withIdThen
-      [("owner_id", .nat oid), ("owner_lun", .nat (Gen.SdrExpr.key_owner_lun olun)), ("number", .nat num),
+      [("owner_id", .nat oid), ("channel_number", .nat (Gen.SdrExpr.key_channel_number olun)),
+       ("owner_lun", .nat (Gen.SdrExpr.key_owner_lun olun)), ("number", .nat num),
        ("entity_id", .nat eid), ("entity_instance", .nat einst),
        ("sensor_type", .nat st), ("event_reading_type_code", .nat et),
        ("record_sharing", .nat (leOr [rs0, rs1])),
@@ -267,7 +277,10 @@ theorem gen_parseFruLocator_eq (aa fid lp ch r0 dt dtm eid einst oem : Nat) (res
     parseFruLocator Variant.intended (aa :: fid :: lp :: ch :: r0 :: dt :: dtm :: eid :: einst :: oem :: rest) =
     withIdThen
       [("device_access_address", .nat (Gen.SdrExpr.fru_device_access_address aa)), ("fru_device_id", .nat fid),
-       ("logical_physical", .nat lp), ("channel_number", .nat (Gen.SdrExpr.fru_channel_number ch)),
+       ("logical_physical", .nat (Gen.SdrExpr.fru_logical_physical lp)),
+       ("access_lun", .nat (Gen.SdrExpr.fru_access_lun lp)),
+       ("private_bus_id", .nat (Gen.SdrExpr.fru_private_bus_id lp)),
+       ("channel_number", .nat (Gen.SdrExpr.fru_channel_number ch)),
        ("reserved", .nat r0),
        ("device_type", .nat dt), ("device_type_modifier", .nat dtm),
        ("entity_id", .nat eid), ("entity_instance", .nat einst),
@@ -297,8 +310,9 @@ theorem gen_parseMcConfirmation_eq (sa did ch f1 f2 iv m0 m1 m2 p0 p1 : Nat) (re
             ("device_guid", .nat (leOr (rest.take 16)))], []) := rfl
 
 theorem gen_parseOem_eq (oid olun num : Nat) (rest : List Nat) :
-    parseOem (oid :: olun :: num :: rest) =
-      .ok ([], [("owner_id", .nat oid), ("owner_lun", .nat (Gen.SdrExpr.key_owner_lun olun)), ("number", .nat num)]) := rfl
+    parseOem Variant.intended (oid :: olun :: num :: rest) =
+      .ok ([], [("owner_id", .nat oid), ("channel_number", .nat (Gen.SdrExpr.key_channel_number olun)),
+                ("owner_lun", .nat (Gen.SdrExpr.key_owner_lun olun)), ("number", .nat num)]) := rfl
 
 /-- Every `_from_data` skips the five header bytes (`ByteBuffer(data[5:])`), as `parseSdr` does. -/
 theorem gen_body_offsets :
@@ -424,7 +438,9 @@ def genByteFieldsOk : Bool :=
     Gen.SdrExpr.fru_device_access_address u == u / 2 && Gen.SdrExpr.mc_device_slave_address u == u / 2 &&
     Gen.SdrExpr.conf_device_slave_address u == u / 2 && Gen.SdrExpr.mc_channel_number u == u % 16 &&
     Gen.SdrExpr.fru_channel_number u == u / 16 && Gen.SdrExpr.conf_channel_number u == u / 16 &&
-    Gen.SdrExpr.conf_device_revision u == u % 16
+    Gen.SdrExpr.conf_device_revision u == u % 16 &&
+    Gen.SdrExpr.key_channel_number u == u / 16 && Gen.SdrExpr.fru_logical_physical u == u / 128 &&
+    Gen.SdrExpr.fru_access_lun u == u / 8 % 4 && Gen.SdrExpr.fru_private_bus_id u == u % 8
 
 theorem gen_byte_fields_sweep : genByteFieldsOk = true := by decide +kernel
 
@@ -432,7 +448,9 @@ theorem gen_byte_fields_sweep : genByteFieldsOk = true := by decide +kernel
 units byte 21 ([7:6] format, [5:3] rate, [2:1] modifier, [0] percentage), linearisation [6:0],
 accuracy exponent [3:2], owner LUN [1:0], id-string type [7:6] / length [5:0] (both places that
 read them), 7-bit addresses [7:1], channel [3:0] of the MC device locator, channel [7:4] of the FRU device
-locator and of the MC confirmation record, device revision [3:0] of the latter — for all 256 byte values. -/
+locator and of the MC confirmation record, device revision [3:0] of the latter, channel [7:4] of key byte 7 of the
+sensor records, logical/physical [7], access LUN [4:3] and private bus id [2:0] of key byte 8 of the FRU device
+locator — for all 256 byte values (reserved bits set or not). -/
 theorem gen_byte_fields (u : Nat) (h : u < 256) :
     Gen.SdrExpr.full_analog_data_format u = u / 64 ∧ Gen.SdrExpr.full_rate_unit u = u / 8 % 8 ∧
     Gen.SdrExpr.full_modifier_unit u = u / 2 % 4 ∧ Gen.SdrExpr.full_percentage u = u % 2 ∧
@@ -443,7 +461,9 @@ theorem gen_byte_fields (u : Nat) (h : u < 256) :
     Gen.SdrExpr.fru_device_access_address u = u / 2 ∧ Gen.SdrExpr.mc_device_slave_address u = u / 2 ∧
     Gen.SdrExpr.conf_device_slave_address u = u / 2 ∧ Gen.SdrExpr.mc_channel_number u = u % 16 ∧
     Gen.SdrExpr.fru_channel_number u = u / 16 ∧ Gen.SdrExpr.conf_channel_number u = u / 16 ∧
-    Gen.SdrExpr.conf_device_revision u = u % 16 := by
+    Gen.SdrExpr.conf_device_revision u = u % 16 ∧
+    Gen.SdrExpr.key_channel_number u = u / 16 ∧ Gen.SdrExpr.fru_logical_physical u = u / 128 ∧
+    Gen.SdrExpr.fru_access_lun u = u / 8 % 4 ∧ Gen.SdrExpr.fru_private_bus_id u = u % 8 := by
   have := Sensor.allLt_spec gen_byte_fields_sweep u h
   simpa only [Bool.and_eq_true, beq_iff_eq, and_assoc] using this
 
@@ -454,7 +474,7 @@ theorem gen_manufacturer_id (x : Nat) : Gen.SdrExpr.conf_manufacturer_id x = x %
 as translated from today's source, are those of tables 43-1, -2, -3, -7, -8, -9, -12 (and the
 order of the patterns of `parseFull` … `parseOem`). -/
 theorem gen_layouts :
-    Gen.SdrExpr.key_layout = [("owner_id", 1), ("owner_lun", 1), ("number", 1)] ∧
+    Gen.SdrExpr.key_layout = [("owner_id", 1), ("channel_lun", 1), ("number", 1)] ∧
     Gen.SdrExpr.entity_layout = [("entity_id", 1), ("entity_instance", 1)] ∧
     Gen.SdrExpr.full_layout =
       [("_common_record_key", 3), ("_entity", 2), ("initialization", 1), ("_decode_capabilities", 1),
@@ -476,7 +496,7 @@ theorem gen_layouts :
       [("_common_record_key", 3), ("_entity", 2), ("sensor_type", 1), ("event_reading_type_code", 1),
        ("record_sharing", 2), ("reserved", 1), ("oem", 1), ("_device_id_string", 0)] ∧
     Gen.SdrExpr.fru_layout =
-      [("device_access_address", 1), ("fru_device_id", 1), ("logical_physical", 1), ("channel_number", 1),
+      [("device_access_address", 1), ("fru_device_id", 1), ("access", 1), ("channel_number", 1),
        ("reserved", 1), ("device_type", 1), ("device_type_modifier", 1), ("_entity", 2), ("oem", 1),
        ("_device_id_string", 0)] ∧
     Gen.SdrExpr.mc_layout =
@@ -507,7 +527,8 @@ theorem gen_inputs :
     Gen.SdrExpr.inputs =
       [("cc_value", ["value", "size"]),
        ("convertComplement", ["value", "size"]),
-       ("key_owner_lun", ["pop(1)"]),
+       ("key_channel_number", ["channel_lun = pop(1)"]),
+       ("key_owner_lun", ["channel_lun = pop(1)"]),
        ("id_device_id_string_type", ["buffer[0]"]),
        ("id_device_id_string_length", ["buffer[0]"]),
        ("id_field_hi", ["buffer[0]"]),
@@ -528,6 +549,9 @@ theorem gen_inputs :
        ("full_k1_1", ["rexp_bexp = pop(1)"]),
        ("full_k1_2", ["rexp_bexp = pop(1)"]),
        ("fru_device_access_address", ["pop(1)"]),
+       ("fru_logical_physical", ["access = pop(1)"]),
+       ("fru_access_lun", ["access = pop(1)"]),
+       ("fru_private_bus_id", ["access = pop(1)"]),
        ("fru_channel_number", ["pop(1)"]),
        ("mc_device_slave_address", ["pop(1)"]),
        ("mc_channel_number", ["pop(1)"]),
@@ -616,7 +640,7 @@ every record type with an id string —; with the SDR table it reads back. -/
 theorem bcd_sdr_codes_counterexample :
     (witness (.bcdPlus [(1, 2), (13, 3), (0, 14), (5, 15)])).wf = true ∧
     parseSdr fruTableVariant (witness (.bcdPlus [(1, 2), (13, 3), (0, 14), (5, 15)])).encode = .pyError "ValueError" ∧
-    parseSdr fruTableVariant (⟨2, 0x51, 0x20, 1, 0x80, 7, 3, 0x10, 2, 0xc2, 0x61, 0, .bcdPlus [(1, 13)]⟩ : FruLocator).encode
+    parseSdr fruTableVariant (⟨2, 0x51, 0x20, 1, 1, 0, 0, 7, 3, 0x10, 2, 0xc2, 0x61, 0, .bcdPlus [(1, 13)]⟩ : FruLocator).encode
       = .pyError "ValueError" ∧
     attr (parseSdr Variant.intended (witness (.bcdPlus [(1, 2), (13, 3), (0, 14), (5, 15)])).encode) "device_id_string"
       = some (.list [49, 50, 58, 51, 48, 44, 53, 95]) := by
@@ -625,12 +649,12 @@ theorem bcd_sdr_codes_counterexample :
 /-- FRU device locator with channel 7 (byte 9 = 70h): the raw byte 112 is reported; MC confirmation record with
 channel 2, device revision 5 (byte 8 = 25h): 37 is reported and there is no device revision.  Intended: 7; 2 and 5. -/
 theorem channel_number_counterexample :
-    (⟨2, 0x51, 0x20, 1, 0x80, 7, 0, 0x10, 2, 0xc2, 0x61, 0, .ascii8 [70]⟩ : FruLocator).wf = true ∧
+    (⟨2, 0x51, 0x20, 1, 1, 0, 0, 7, 0, 0x10, 2, 0xc2, 0x61, 0, .ascii8 [70]⟩ : FruLocator).wf = true ∧
     attr (parseSdr rawChannelVariant
-      (⟨2, 0x51, 0x20, 1, 0x80, 7, 0, 0x10, 2, 0xc2, 0x61, 0, .ascii8 [70]⟩ : FruLocator).encode) "channel_number"
+      (⟨2, 0x51, 0x20, 1, 1, 0, 0, 7, 0, 0x10, 2, 0xc2, 0x61, 0, .ascii8 [70]⟩ : FruLocator).encode) "channel_number"
       = some (.nat 112) ∧
     attr (parseSdr Variant.intended
-      (⟨2, 0x51, 0x20, 1, 0x80, 7, 0, 0x10, 2, 0xc2, 0x61, 0, .ascii8 [70]⟩ : FruLocator).encode) "channel_number"
+      (⟨2, 0x51, 0x20, 1, 1, 0, 0, 7, 0, 0x10, 2, 0xc2, 0x61, 0, .ascii8 [70]⟩ : FruLocator).encode) "channel_number"
       = some (.nat 7) ∧
     (⟨7, 0x51, 0x10, 3, 2, 5, 2, 1, 0x51, 0x2c14a, 0x8006, List.replicate 16 0xab⟩ : McConfirmation).wf = true ∧
     attr (parseSdr rawChannelVariant
@@ -647,6 +671,85 @@ theorem channel_number_counterexample :
       = some (.nat 5) := by
   decide +kernel
 
+/-- … with the whole key byte 8 of the FRU device locator reported as `logical_physical`. -/
+def rawAccessVariant : Variant := { Variant.intended with lpRaw := true }
+
+/-- … and with the channel number of the sensor record key dropped. -/
+def noKeyChannelVariant : Variant := { Variant.intended with keyNoChannel := true }
+
+/-- A FRU device locator: (logical, access LUN, private bus id) as given, channel 7. -/
+def fruWitness (l lun bus : Nat) : FruLocator :=
+  ⟨2, 0x51, 0x50, 3, l, lun, bus, 7, 0, 0x10, 2, 0xc2, 0x61, 0, .ascii8 [70, 82, 85]⟩
+
+/-- Table 43-7 key byte 8.  A PHYSICAL device (flag 0) on private bus 3 (byte = 03h): the code as shipped reports
+`logical_physical = 3` — non-zero, i.e. "logical" — and has no attribute for the bus id; a logical device with access
+LUN 2, bus id 5 (byte = 95h) reads 149.  Intended: the flag 0 / 1, and the LUN and the bus id under their own names. -/
+theorem logical_physical_counterexample :
+    (fruWitness 0 0 3).wf = true ∧ (fruWitness 1 2 5).wf = true ∧
+    attr (parseSdr rawAccessVariant (fruWitness 0 0 3).encode) "logical_physical" = some (.nat 3) ∧
+    attr (parseSdr rawAccessVariant (fruWitness 0 0 3).encode) "private_bus_id" = none ∧
+    attr (parseSdr rawAccessVariant (fruWitness 1 2 5).encode) "logical_physical" = some (.nat 149) ∧
+    attr (parseSdr rawAccessVariant (fruWitness 1 2 5).encode) "access_lun" = none ∧
+    attr (parseSdr Variant.intended (fruWitness 0 0 3).encode) "logical_physical" = some (.nat 0) ∧
+    attr (parseSdr Variant.intended (fruWitness 0 0 3).encode) "private_bus_id" = some (.nat 3) ∧
+    attr (parseSdr Variant.intended (fruWitness 1 2 5).encode) "logical_physical" = some (.nat 1) ∧
+    attr (parseSdr Variant.intended (fruWitness 1 2 5).encode) "access_lun" = some (.nat 2) ∧
+    attr (parseSdr Variant.intended (fruWitness 1 2 5).encode) "private_bus_id" = some (.nat 5) := by
+  decide +kernel
+
+/-- A compact and an event-only sensor record with the given channel number in their key. -/
+def compactWitness (ch : Nat) : CompactSensor :=
+  ⟨0x12, 0x51, 0x82, ch, 1, 0x22, 3, 0x60, 0x67, 0x40, 7, 0x6f, 1, 1, 1, 0xc0, 0, 0, 0, 2, 3, 0, .ascii8 [67, 80, 85]⟩
+def eventWitness (ch : Nat) : EventOnly :=
+  ⟨0x13, 0x51, 0x82, ch, 1, 0x23, 3, 0x60, 0x12, 0x6f, 0, 0, .ascii8 [69, 118]⟩
+
+/-- Tables 43-1, 43-2, 43-3 key byte 7.  The code as shipped masks the channel number away: the record with channel 5
+has no `channel_number`, and two records whose keys differ (channel 5 / channel 9: the same owner address on two
+different channels is two different controllers) parse to EQUAL results — for all three sensor record types.
+Intended: 5 resp. 9 is reported and the results differ. -/
+theorem sensor_key_channel_counterexample :
+    (witness (.ascii8 [65])).wf = true ∧ (compactWitness 5).wf = true ∧ (eventWitness 5).wf = true ∧
+    attr (parseSdr noKeyChannelVariant (witness (.ascii8 [65])).encode) "channel_number" = none ∧
+    attr (parseSdr noKeyChannelVariant (compactWitness 5).encode) "channel_number" = none ∧
+    attr (parseSdr noKeyChannelVariant (eventWitness 5).encode) "channel_number" = none ∧
+    parseSdr noKeyChannelVariant (witness (.ascii8 [65])).encode =
+      parseSdr noKeyChannelVariant ({ witness (.ascii8 [65]) with channel := 9 }).encode ∧
+    parseSdr noKeyChannelVariant (compactWitness 5).encode = parseSdr noKeyChannelVariant (compactWitness 9).encode ∧
+    parseSdr noKeyChannelVariant (eventWitness 5).encode = parseSdr noKeyChannelVariant (eventWitness 9).encode ∧
+    attr (parseSdr Variant.intended (witness (.ascii8 [65])).encode) "channel_number" = some (.nat 5) ∧
+    attr (parseSdr Variant.intended (witness (.ascii8 [65])).encode) "owner_lun" = some (.nat 2) ∧
+    attr (parseSdr Variant.intended (compactWitness 5).encode) "channel_number" = some (.nat 5) ∧
+    attr (parseSdr Variant.intended (eventWitness 9).encode) "channel_number" = some (.nat 9) := by
+  decide +kernel
+
+/-! ### the key sub-fields, for every value -/
+
+/-- Key byte 8 of table 43-7, all 2 x 4 x 8 = 64 combinations: today's expressions give back the logical/physical flag,
+the access LUN and the private bus id. -/
+theorem fru_access_byte_all (l lun bus : Nat) (h1 : l < 2) (h2 : lun < 4) (h3 : bus < 8) :
+    Gen.SdrExpr.fru_logical_physical (l * 128 + lun * 8 + bus) = l ∧
+    Gen.SdrExpr.fru_access_lun (l * 128 + lun * 8 + bus) = lun ∧
+    Gen.SdrExpr.fru_private_bus_id (l * 128 + lun * 8 + bus) = bus :=
+  access_enc l lun bus h1 h2 h3
+
+/-- Key byte 7 of tables 43-1, 43-2, 43-3, all 16 x 4 combinations: today's expressions give back the channel number
+and the owner LUN. -/
+theorem sensor_key_all (ch lun : Nat) (h : lun < 4) :
+    Gen.SdrExpr.key_channel_number (ch * 16 + lun) = ch ∧ Gen.SdrExpr.key_owner_lun (ch * 16 + lun) = lun :=
+  ⟨chan_enc ch lun h, lun_enc ch lun h⟩
+
+/-- The intended parser keeps records with different keys apart: two well-formed full sensor records whose channel
+numbers differ never parse to the same result (what the dropped channel number broke). -/
+theorem sensor_key_channel_distinguished (r₁ r₂ : FullSensor) (h₁ : r₁.wf = true) (h₂ : r₂.wf = true)
+    (hc : r₁.channel ≠ r₂.channel) :
+    parseSdr Variant.intended r₁.encode ≠ parseSdr Variant.intended r₂.encode := by
+  rw [parse_encode_full r₁ h₁, parse_encode_full r₂ h₂]
+  intro h
+  have hv : r₁.view = r₂.view := by injection h with h; injection h
+  have := congrArg (List.lookup "channel_number") hv
+  simp [FullSensor.view, headerView, List.lookup] at this
+  exact hc this
+
 /-! ### non-vacuity -/
 
 /-- The hypotheses of `parse_encode_full` hold for the witness, and its instance says what it
@@ -662,7 +765,9 @@ example : (⟨1, 0x51, 0xC0, [1, 2, 3, 4]⟩ : Opaque).wf = true ∧ (3 ≤ [1, 
 example : (⟨1, 0x51, 0x08, []⟩ : Opaque).wf = true ∧ kindOfType 0x08 = .unknown := by decide
 example : (⟨7, 0x51, 0x10, 3, 15, 9, 2, 1, 0x51, 0x2c14a, 0x8006, List.replicate 16 0xab⟩ : McConfirmation).wf = true := by
   decide
-example : (⟨2, 0x51, 0x20, 1, 0x80, 15, 9, 0x10, 2, 0xc2, 0x61, 0, .bcdPlus [(13, 14), (15, 0)]⟩ : FruLocator).wf = true := by
+example : (⟨2, 0x51, 0x20, 1, 1, 3, 7, 15, 9, 0x10, 2, 0xc2, 0x61, 0, .bcdPlus [(13, 14), (15, 0)]⟩ : FruLocator).wf = true := by
   decide
+example : (witness (.ascii8 [65])).wf = true ∧ ({ witness (.ascii8 [65]) with channel := 9 }).wf = true ∧
+    (witness (.ascii8 [65])).channel ≠ ({ witness (.ascii8 [65]) with channel := 9 }).channel := by decide
 
 end PyIpmi.Props.C16
